@@ -59,7 +59,7 @@ fn bases(tier: Tier) -> Vec<Base> {
         for (pi, path) in ["/bkt/a", "/bkt/a%20b", "/bkt/%C3%A9", "/bkt/a+b", "/bkt/a/b", "/bkt"].into_iter().enumerate() {
             for vh in [false, true] {
                 for (qi, q) in queries.iter().enumerate() {
-                    for amz in 0..7 {
+                    for amz in 0..8 {
                         for date_kind in 0..3 {
                             for md5_type in [false, true] {
                                 for presigned in [false, true] {
@@ -117,6 +117,8 @@ fn build(b: &Base) -> Req {
             r.headers.push(("x-amz-object-attributes".into(), b"ETag".to_vec()));
             r.headers.push(("x-amz-object-attributes".into(), b"Checksum".to_vec()));
         }
+        // a value with inner runs of blanks (Signature V2 trims the ends only: the runs are signed as they are)
+        7 => r.headers.push(("x-amz-meta-a".into(), b"hello  world   x".to_vec())),
         _ => unreachable!(),
     }
     if b.md5_type {
@@ -205,6 +207,8 @@ enum Mutn {
     ContentType,
     DateValue,
     AmzValue(usize),
+    /// a blank inside an x-amz-* value stretched into a run of blanks (or a run shrunk to one) after signing
+    AmzValueBlankRun(usize),
     AmzRemoved(usize),
     AmzAdded,
     PathByte(usize),
@@ -235,6 +239,7 @@ impl Mutn {
             Mutn::ContentType => "content-type",
             Mutn::DateValue => "date",
             Mutn::AmzValue(_) => "amz-header-value",
+            Mutn::AmzValueBlankRun(_) => "amz-header-value-blank-run",
             Mutn::AmzRemoved(_) => "amz-header-removed",
             Mutn::AmzAdded => "amz-header-added",
             Mutn::PathByte(_) => "path-byte",
@@ -278,6 +283,7 @@ fn mutations(r: &Req, b: &Base) -> Vec<Mutn> {
     for (i, (n, _)) in r.headers.iter().enumerate() {
         if n.to_ascii_lowercase().starts_with("x-amz-") && !n.eq_ignore_ascii_case("x-amz-date") {
             m.push(Mutn::AmzValue(i));
+            m.push(Mutn::AmzValueBlankRun(i));
             m.push(Mutn::AmzRemoved(i));
         }
     }
@@ -346,6 +352,11 @@ fn apply(mu: &Mutn, r: &mut Req, keys: &mut Vec<(String, String)>, b: &Base) -> 
             _ => r.set_header("x-amz-date", "Thu, 29 Feb 2024 11:59:01 GMT"),
         },
         Mutn::AmzValue(i) => r.headers[*i].1.push(b'x'),
+        Mutn::AmzValueBlankRun(i) => {
+            let v = String::from_utf8_lossy(&r.headers[*i].1).into_owned();
+            let nv = if v.contains("  ") { v.split_whitespace().collect::<Vec<_>>().join(" ") } else if v.contains(' ') { v.replacen(' ', "   ", 1) } else { return false };
+            r.headers[*i].1 = nv.into_bytes();
+        }
         Mutn::AmzRemoved(i) => {
             r.headers.remove(*i);
         }
